@@ -120,7 +120,10 @@ func panicSite() string {
 	frames := runtime.CallersFrames(pcs[:n])
 	for {
 		fr, more := frames.Next()
-		if strings.Contains(fr.Function, "Netspoc-Approve/go/") {
+		// errlog.HandleAbort re-panics from its deferred function: skip it,
+		// the frames of the original panic are still below.
+		if strings.Contains(fr.Function, "Netspoc-Approve/go/") &&
+			!strings.Contains(fr.Function, "/errlog.HandleAbort") {
 			fn := fr.Function[strings.LastIndex(fr.Function, "/")+1:]
 			// Strip closure suffixes: cisco.postprocessACLParts.func5 -> cisco.postprocessACLParts
 			if i := strings.Index(fn, ".func"); i > 0 {
